@@ -411,6 +411,41 @@ package fit
 //@   loop 1 decreases int(f.length) - int(i)
 //@   loop 1 dispatches encodeValue
 
+//@@ what the profile tables guarantee about the fields the encoder writes (the same facts C15 checks, as a lemma)
+//@ lemma enc_field_ok(m MesgNum)
+//@   props C05 C06 C15
+//@   reveal tables, rvtables
+//@   concl forall n byte :: pfound(m, n) ==> knownMsgNums[m] && 0 <= pf(m, n).sindex && pf(m, n).sindex < rvNumField(int(m)) && byte(pf(m, n).t)&0x1F <= 16 &&
+//@  |   (farray(pf(m, n).t) ==> fkind(pf(m, n).t) == 0 && rvClass(int(m), pf(m, n).sindex) == 5) &&
+//@  |   (!farray(pf(m, n).t) && (fkind(pf(m, n).t) == 1 || fkind(pf(m, n).t) == 2) ==> rvTypeTag(int(m), pf(m, n).sindex) == typetag[time.Time]()) &&
+//@  |   (!farray(pf(m, n).t) && fkind(pf(m, n).t) == 3 ==> rvTypeTag(int(m), pf(m, n).sindex) == typetag[Latitude]()) &&
+//@  |   (!farray(pf(m, n).t) && fkind(pf(m, n).t) == 4 ==> rvTypeTag(int(m), pf(m, n).sindex) == typetag[Longitude]())
+
+//@@ a definition built by the encoder lists profile fields of its message
+//@ pred enc_def_of(def *encodeMesgDef) := wf_encdef(def) && (forall k in 0..len(def.fields) :: def.fields[k] == pf(def.globalMesgNum, def.fields[k].num))
+//@@ domain of the encoder (C06): timestamps are whole seconds in the FIT range, strings have room for their terminator
+//@ pred enc_domain(mesg reflect.Value, def *encodeMesgDef) := forall k in 0..len(def.fields) ::
+//@  | (!farray(def.fields[k].t) && (fkind(def.fields[k].t) == 1 || fkind(def.fields[k].t) == 2) ==> timeInRange(ifaceOf(rvfieldof(mesg, def.fields[k].sindex)).(time.Time))) &&
+//@  | (fkind(def.fields[k].t) == 0 && fbase(def.fields[k].t) == types.BaseString ==> def.fields[k].length >= 1)
+//@ ghost func nrecords(e *encoder) int
+
+//@@ a data record: header byte = local message type, then every field of the definition, in its order, through writeField
+//@ func (e *encoder) writeMesg(mesg reflect.Value, def *encodeMesgDef) (err error)
+//@   props C05 C06
+//@   locals rangeindex int
+//@   use enc_field_ok(def.globalMesgNum)
+//@   requires e.w != nil && (isLE(e.arch) || isBE(e.arch)) && def != nil && enc_def_of(def) && rvismsg(mesg, int(def.globalMesgNum)) && def.globalMesgNum < 0xFF00
+//@   requires [domain] enc_domain(mesg, def)
+//@   ensures [header] err == nil ==> wpos(e.w) >= old(wpos(e.w))+1 && outb(e.w, old(wpos(e.w))) == def.localMesgNum&0x0F
+//@   ensures [append] wpos(e.w) >= old(wpos(e.w)) && (forall k in 0..old(wpos(e.w)) :: outb(e.w, k) == old(outb(e.w, k)))
+//@   gassign nrecords(e) := nrecords(e)+1 when err == nil
+//@   assigns wpos(e.w), outb(e.w, *)
+//@   loop 0 invariant [range] -1 <= rangeindex && rangeindex < len(def.fields)
+//@   loop 0 invariant [append] wpos(e.w) >= old(wpos(e.w))+1 && outb(e.w, old(wpos(e.w))) == def.localMesgNum&0x0F && (forall k in 0..old(wpos(e.w)) :: outb(e.w, k) == old(outb(e.w, k)))
+//@   loop 0 assigns wpos(e.w), outb(e.w, *)
+//@   loop 0 decreases len(def.fields) - rangeindex
+//@   loop 0 dispatches writeField
+
 //@ func (e *encoder) encodeDefAndDataMesg(mesg reflect.Value) (err error)
 //@   props C05
 //@   trusted
